@@ -71,6 +71,7 @@ class System:
     distinct_by_construction = True  # the enumeration never repeats a case
     fork_per_case = False
     jobs = None  # override worker count
+    chunk = 64  # consecutive cases handed to one worker
 
     def __init__(self, tier: str):
         self.tier = tier
@@ -248,7 +249,7 @@ def _worker(system: System, wid: int, nworkers: int, seed: int, wfd: int, t_end)
         system.worker_init(wid)
         first: list = []  # determinism re-execution (worker 0 only)
         for idx, case in enumerate(system.cases()):
-            if (idx // CHUNK) % nworkers != wid:
+            if (idx // system.chunk) % nworkers != wid:
                 continue
             if t_end is not None and time.time() > t_end:
                 acc.capped_at = idx
